@@ -485,9 +485,10 @@ func sortKeys(ks []string) {
 // ---------- the independent reference (oracle) ----------
 
 type stored struct {
-	desc  ocispec.Descriptor // as pushed
-	bytes []byte
-	node  int
+	desc    ocispec.Descriptor // as pushed
+	bytes   []byte
+	node    int
+	noIndex bool // stored by a Push that failed afterwards (known alias finding): never indexed
 }
 
 type reference struct {
@@ -563,7 +564,7 @@ func (r *reference) expectedPreds(n ocispec.Descriptor) []string {
 	}
 	seen := map[string]bool{}
 	for _, st := range all {
-		if !isManifestMT(st.desc.MediaType) || seen[r.u.keyTok(st.desc)] {
+		if !isManifestMT(st.desc.MediaType) || seen[r.u.keyTok(st.desc)] || st.noIndex {
 			continue
 		}
 		seen[r.u.keyTok(st.desc)] = true
@@ -662,7 +663,7 @@ func (r *reference) judge(o Op, res result) *failure {
 			if !errors.Is(res.err, errdef.ErrAlreadyExists) {
 				if r.clobbered[string(d.Digest)] {
 					// the push went to the fallback storage, then Successors read the clobbered file back
-					r.content[r.key(d)] = stored{desc: d, bytes: b, node: o.Node}
+					r.content[r.key(d)] = stored{desc: d, bytes: b, node: o.Node, noIndex: true}
 					return fail("file-name-alias-overwrite", "unnamed push %s => %v: the file this digest points to was overwritten through a second name for its path", o, res.err)
 				}
 				return fail("push-present", "push of present content %s returned %v", o, res.err)
@@ -1006,6 +1007,11 @@ func seqHistory(h histSpec) {
 	var toks, outs, shown []string
 	reported := map[string]bool{}
 	report := func(f *failure, step int) {
+		if len(ref.clobbered) > 0 && f.sig != "file-name-alias-overwrite" {
+			// once a file has been clobbered through a second name for its path, every later
+			// discrepancy in this history is a consequence of that known defect
+			f = &failure{"file-name-alias-overwrite", "(after an alias overwrite) " + f.sig + ": " + f.msg}
+		}
 		if reported[f.sig] || len(reported) >= 4 {
 			return // each clause once per history
 		}
